@@ -3,7 +3,10 @@
 # its property to report a VIOLATION. Prints one line per change; exit 0 iff all are detected.
 cd "$(dirname "$0")/.."
 rc=0
-for d in seeded/C*/; do
+# usage: selftest.sh [seeded dir names...]   (default: all)
+dirs=(seeded/C*/)
+[ $# -gt 0 ] && { dirs=(); for a in "$@"; do dirs+=("seeded/$a/"); done; }
+for d in "${dirs[@]}"; do
   id=$(basename "$d"); id=${id%%-*}
   # meta.json may name another property whose check owns the change ("selftest_check") or say why the change is
   # not a violation of the statement as read ("selftest_skip")
@@ -11,6 +14,17 @@ for d in seeded/C*/; do
   if [ -n "$skip" ]; then echo "$(basename "$d") SKIPPED  $skip"; continue; fi
   alt=$(python3 -c "import json,sys; print(json.load(open(sys.argv[1])).get('selftest_check',''))" "$d/meta.json" 2>/dev/null)
   [ -n "$alt" ] && id=$alt
+  # a change pinned to the commit it was written against (a later fix: commit touches the same lines): what that commit
+  # ALONE makes the check report does not count - the change has to add a (scenario, clause) of its own
+  base=$(python3 -c "import json,sys; print(json.load(open(sys.argv[1])).get('apply_to','HEAD'))" "$d/meta.json" 2>/dev/null)
+  if [ -n "$base" ] && [ "$base" != "HEAD" ] && ! git -C /repo diff --quiet "$base" HEAD -- . 2>/dev/null; then
+    bf=/tmp/selftest_base_${base}_${id}.txt
+    [ -f "$bf" ] || { : > "$bf"; TRY_BASELINE=1 TRY_DUMP="$bf" scripts/trymutant.sh "$d/patch.diff" "$id" >/dev/null 2>&1; }
+    mf=$(mktemp /tmp/selftest_mut_XXXX); out=$(TRY_DUMP="$mf" scripts/trymutant.sh "$d/patch.diff" "$id" 2>&1)
+    own=$(sort -u "$mf" | comm -23 - <(sort -u "$bf") | head -3 | tr '\n' ';'); rm -f "$mf"
+    if [ -n "$own" ]; then echo "$id DETECTED  (pinned to $base; beyond what the base alone reports: $own)"; else echo "$id NOT-DETECTED (pinned to $base: nothing beyond what the base alone reports) $(echo "$out" | tail -2 | tr '\n' ' ' | cut -c1-160)"; rc=1; fi
+    continue
+  fi
   out=$(scripts/trymutant.sh "$d/patch.diff" "$id" 2>&1)
   if echo "$out" | grep -q "^$id exit=1"; then echo "$id DETECTED  $(echo "$out" | grep "^$id exit" | cut -c1-150)"; else echo "$id NOT-DETECTED $(echo "$out" | tail -2 | tr '\n' ' ' | cut -c1-200)"; rc=1; fi
 done
